@@ -12,13 +12,14 @@ Pure functions (tied to the code through AES-GCM tags verified by the harness):
        head (payload object must exist) or a listing entry (metadata only)
   plan <size> <c> <range> <head>                   -> ok rStart rEnd <rr> startIdx startOffset len | err:range
        range: `-` | b:<s>:<e> | o:<n> | s:<n>;  rr: `-` | <s>:<e>
-  stream <c> <startIdx> <startOffset> <len> <ntags> <segs>   create_decryption_stream over a symbolic
+  stream …                                         create_decryption_stream over a symbolic
        ciphertext: segs = `/`-separated segments, each a `,`-separated list of runs `<from>+<n>` of
        original ciphertext positions or `x<n>` (n modified bytes); `-` = empty segment list
                                                    -> ok <runs> | err:<class> <runs yielded before>
-  ranges <size> <c> <payloadLen> <bad> <s:e,s:e,…>  get_ranges over an object of `size` bytes whose payload
-       holds `payloadLen` bytes with the positions in `bad` (`-` or comma list) modified
-                                                   -> ok <runs>;<runs>… | fetched <s:e,…>  /  err:<class>
+  ranges <size> <c> <payload runs> <s:e,s:e,…>     get_ranges over an object of `size` bytes whose payload object
+       holds the given symbolic bytes (runs as above)
+                                                   -> ok <runs>;<runs>… fetched <s:e,…>  |  err:<class>
+  stream <size> <c> <startIdx> <startOffset> <len> <segs>   (first argument: size of the object written)
 -/
 import AndaVerif.Model.Enc
 import AndaVerif.Drv.Util
